@@ -36,7 +36,7 @@ const (
 )
 
 type vListed struct {
-	os             *adapters.ObjectSetAdapter
+	os             adapters.ObjectSetAccessor
 	rev            int64
 	hash           string
 	hasHash        bool
@@ -47,25 +47,40 @@ type vListed struct {
 // VerifC07C09Deployment: one pass of the ObjectDeployment's ObjectSet reconciler (real new-revision reconciler,
 // archival stubbed) over an arbitrary list of existing ObjectSets.
 func VerifC07C09Deployment() {
-	dep := &adapters.ObjectDeployment{}
-	dep.Name, dep.Namespace, dep.UID = "dep", "ns", "uid-dep"
-	dep.Generation = 4
+	// the namespaced and the cluster-scoped API types go through twin adapters
+	cluster := verifrt.Bound("clusterScoped", 0) == 1
+	ns := "ns"
+	var dep adapters.ObjectDeploymentAccessor
 	paused := verifrt.Bool("deployment.paused")
-	dep.Spec.Paused = paused
 	emptyTemplate := verifrt.Bool("template.empty")
-	if !emptyTemplate {
-		dep.Spec.Template.Spec = vTemplateSpec("A")
-	}
-	dep.Spec.Template.Metadata.Labels = map[string]string{"app": "x"}
 	tmplHash := verifrt.StringFrom("status.templateHash", "h0", "h1")
-	dep.Status.TemplateHash = tmplHash
+	var tmplSpec corev1alpha1.ObjectSetTemplateSpec
+	if !emptyTemplate {
+		tmplSpec = vTemplateSpec("A")
+	}
+	if cluster {
+		ns = ""
+		d := &adapters.ClusterObjectDeployment{}
+		d.Name, d.UID, d.Generation = "dep", "uid-dep", 4
+		d.Spec.Paused, d.Spec.Template.Spec = paused, tmplSpec
+		d.Spec.Template.Metadata.Labels = map[string]string{"app": "x"}
+		d.Status.TemplateHash = tmplHash
+		dep = d
+	} else {
+		d := &adapters.ObjectDeployment{}
+		d.Name, d.Namespace, d.UID, d.Generation = "dep", "ns", "uid-dep", 4
+		d.Spec.Paused, d.Spec.Template.Spec = paused, tmplSpec
+		d.Spec.Template.Metadata.Labels = map[string]string{"app": "x"}
+		d.Status.TemplateHash = tmplHash
+		dep = d
+	}
 	var oldCC *int32
 	if verifrt.Bool("collisionCount.set") {
 		v := verifrt.Int32("collisionCount")
 		verifrt.Assume(v >= 0 && v < 1<<30)
 		oldCC = &v
 		cc := v
-		dep.Status.CollisionCount = &cc
+		dep.SetStatusCollisionCount(&cc)
 	}
 
 	n := verifrt.IntRange("nObjectSets", 0, verifrt.Bound("maxObjectSets", 2))
@@ -74,31 +89,40 @@ func VerifC07C09Deployment() {
 	for k := 0; k < n; k++ {
 		p := "os" + strconv.Itoa(k)
 		l := &vListed{}
-		os := &adapters.ObjectSetAdapter{}
-		os.Name, os.Namespace = p, "ns"
 		l.rev = verifrt.Int64(p + ".revision")
 		verifrt.Assume(l.rev >= 0 && l.rev < 1<<62)
 		if k > 0 {
 			verifrt.Assume(listed[k-1].rev <= l.rev) // listObjectSetsByRevision sorts ascending
 		}
-		os.Status.Revision = l.rev
 		l.hasHash = verifrt.Bool(p + ".hasHashAnnotation")
-		os.Annotations = map[string]string{}
+		ann := map[string]string{}
 		if l.hasHash {
 			l.hash = verifrt.StringFrom(p+".hash", "h0", "h1")
-			os.Annotations[ObjectSetHashAnnotation] = l.hash
+			ann[ObjectSetHashAnnotation] = l.hash
 		}
 		l.lifecycle = verifrt.StringFrom(p+".lifecycle", string(corev1alpha1.ObjectSetLifecycleStateActive),
 			string(corev1alpha1.ObjectSetLifecycleStatePaused), string(corev1alpha1.ObjectSetLifecycleStateArchived))
-		os.Spec.LifecycleState = corev1alpha1.ObjectSetLifecycleState(l.lifecycle)
 		l.pausedByParent = verifrt.Bool(p + ".pausedByParentAnnotation")
 		if l.pausedByParent {
-			os.Annotations[pausedByParentAnnotationKey] = "true"
+			ann[pausedByParentAnnotationKey] = "true"
 		}
-		os.Spec.ObjectSetTemplateSpec = vTemplateSpec("A")
-		l.os = os
+		if cluster {
+			os := &adapters.ClusterObjectSetAdapter{}
+			os.Name, os.Annotations = p, ann
+			os.Status.Revision = l.rev
+			os.Spec.LifecycleState = corev1alpha1.ObjectSetLifecycleState(l.lifecycle)
+			os.Spec.ObjectSetTemplateSpec = vTemplateSpec("A")
+			l.os = os
+		} else {
+			os := &adapters.ObjectSetAdapter{}
+			os.Name, os.Namespace, os.Annotations = p, "ns", ann
+			os.Status.Revision = l.rev
+			os.Spec.LifecycleState = corev1alpha1.ObjectSetLifecycleState(l.lifecycle)
+			os.Spec.ObjectSetTemplateSpec = vTemplateSpec("A")
+			l.os = os
+		}
 		listed[k] = l
-		list = append(list, os)
+		list = append(list, l.os)
 	}
 
 	c := verifk8s.NewClient()
@@ -110,7 +134,7 @@ func VerifC07C09Deployment() {
 	var conflictRev int64
 	if createOutcome == 1 {
 		conflict := &corev1alpha1.ObjectSet{}
-		conflict.Name, conflict.Namespace = "dep-"+"h0", "ns"
+		conflict.Name, conflict.Namespace = "dep-"+"h0", ns
 		conflictArchived = verifrt.Bool("conflict.archived")
 		if conflictArchived {
 			conflict.Spec.LifecycleState = corev1alpha1.ObjectSetLifecycleStateArchived
@@ -136,7 +160,16 @@ func VerifC07C09Deployment() {
 		for _, h := range []string{"h0", "h1"} {
 			cc := conflict.DeepCopy()
 			cc.Name = "dep-" + h
-			c.Put(cc)
+			if cluster {
+				ccc := &corev1alpha1.ClusterObjectSet{}
+				verifk8s.FromMap(verifk8s.ToMap(cc), ccc)
+				for k := range ccc.OwnerReferences {
+					ccc.OwnerReferences[k].Kind = "ClusterObjectDeployment"
+				}
+				c.Put(ccc)
+			} else {
+				c.Put(cc)
+			}
 		}
 	}
 	c.Outcome = func(call *verifk8s.Call) error {
@@ -151,13 +184,17 @@ func VerifC07C09Deployment() {
 		return nil
 	}
 	archive := &vSubReconciler{}
+	newOS := adapters.NewObjectSet
+	if cluster {
+		newOS = adapters.NewClusterObjectSet
+	}
 	r := &objectSetReconciler{
 		client: c,
 		listObjectSetsForDeployment: func(context.Context, adapters.ObjectDeploymentAccessor) ([]adapters.ObjectSetAccessor, error) {
 			return list, nil
 		},
 		reconcilers: []objectSetSubReconciler{
-			&newRevisionReconciler{client: c, newObjectSet: adapters.NewObjectSet, scheme: vScheme()},
+			&newRevisionReconciler{client: c, newObjectSet: newOS, scheme: vScheme()},
 			archive,
 		},
 	}
@@ -189,12 +226,12 @@ func VerifC07C09Deployment() {
 		verifrt.Reach("created")
 		created := &corev1alpha1.ObjectSet{}
 		verifk8s.FromMap(creates[0].Obj, created)
-		verifrt.Assert(equality.Semantic.DeepEqual(created.Spec.ObjectSetTemplateSpec, dep.Spec.Template.Spec), "C07/created-spec-equals-template")
-		verifrt.Assert(created.Name == "dep-"+tmplHash && created.Namespace == "ns", "C07/name-from-template-hash")
+		verifrt.Assert(equality.Semantic.DeepEqual(created.Spec.ObjectSetTemplateSpec, tmplSpec), "C07/created-spec-equals-template")
+		verifrt.Assert(created.Name == "dep-"+tmplHash && created.Namespace == ns, "C07/name-from-template-hash")
 		verifrt.Assert(created.Annotations[ObjectSetHashAnnotation] == tmplHash, "C07/hash-annotation")
 		okPrev := len(created.Spec.Previous) == n
 		for k := 0; k < n && k < len(created.Spec.Previous); k++ {
-			if created.Spec.Previous[k].Name != listed[k].os.Name {
+			if created.Spec.Previous[k].Name != listed[k].os.ClientObject().GetName() {
 				okPrev = false
 			}
 		}
@@ -211,7 +248,7 @@ func VerifC07C09Deployment() {
 			latest = listed[n-1].rev
 		}
 		slowCache := verifrt.And(verifrt.And(!conflictArchived, conflictSameSpec), verifrt.And(conflictController == 0, conflictRev >= latest))
-		newCC := dep.Status.CollisionCount
+		newCC := dep.GetStatusCollisionCount()
 		bumped := false
 		if newCC != nil {
 			if oldCC == nil {
